@@ -214,11 +214,14 @@ def table_counts(frame, ego_q, n, m):
 
 
 YAWS = {"back_left": (1, 0, 0, 20), "back_right": (1, 0, 0, -20), "ahead": (8, 0, 0, 1), "right": (2, 0, 0, -1),
-        "left_back": (1, 0, 0, 3)}
+        "left_back": (1, 0, 0, 3),
+        # the same headings stored with the other quaternion sign (w < 0)
+        "ahead_flipped": (-8, 0, 0, -1), "right_flipped": (-2, 0, 0, 1)}
 
 
 def _yaw_of(q):
-    return 2 * math.atan2(q[3], q[0])
+    a = 2 * math.atan2(q[3], q[0])
+    return math.atan2(math.sin(a), math.cos(a))  # the heading, whatever the sign of the stored quaternion
 
 
 def table_yaw_error(frame, ego_q):
@@ -271,8 +274,8 @@ def obligations(pid, tier):
             [] if quick else [dict(ego_q="yaw90", ego_q2="id")]), extras=S.frame_extras,
                    desc="auxiliary: rows written by add() for same-named frames with different ego poses"),
         Obligation("table_yaw_error", table_yaw_error, cases=[dict(frame=f, ego_q=q) for f, q in frames], extras=S.frame_extras,
-                   desc="auxiliary: yaw error of a paired row = wrapped ground-truth-minus-estimate yaw for all 25 heading "
-                        "pairs incl. both directions across the +-pi seam; mean / RMS / max summaries"),
+                   desc="auxiliary: yaw error of a paired row = wrapped ground-truth-minus-estimate yaw for all 49 heading "
+                        "pairs incl. both directions across the +-pi seam and both quaternion signs; mean / RMS / max summaries"),
         Obligation("table_counts", table_counts, cases=cnt, extras=S.frame_extras,
                    desc="auxiliary: the pandas table built by add() is compared with the pass/fail lists on the real code "
                         "at the solver-generated witness of every explored path"),
